@@ -60,4 +60,201 @@ def Sent.expected {β : Type} (T : Msg.Tables) (x : Sent β) : Msg.View β :=
   { x.msg.view T with
     body := if Msg.truthy (x.msg.attrs .signature) then some x.decoded else none }
 
+/-! ## Additions after review 3 (2026-09-30): dispatch, descriptor list, parse exceptions
+
+Nothing above is changed.  `receive` parses every frame the framing delivered - a fiction for everything behind
+a frame that does not parse: in the code `rawDBusMessageReceived` runs INSIDE the `while True:` loop of
+`dataReceived`, so an exception of `parseMessage` escapes `dataReceived` at that point.  `recvRun` below is the
+receiver with the rest of `rawDBusMessageReceived` and with that behaviour:
+
+    m = message.parseMessage(rawMsg, self._receivedFDs)
+    mt = m._messageType
+    if hasattr(m, 'unix_fds'): self._receivedFDs = self._receivedFDs[m.unix_fds:]
+    if mt == 1: self.methodCallReceived(m) elif mt == 2: self.methodReturnReceived(m)
+    elif mt == 3: self.errorReceived(m) elif mt == 4: self.signalReceived(m)
+
+* `hookOfType` - the `if mt == 1 … elif mt == 4` chain (no hook for any other type);
+* `sliceFrom` - `self._receivedFDs[m.unix_fds:]` (the attribute exists only when header field 9 was present);
+* `handleFrame` - one call of `rawDBusMessageReceived`: the hook called (if any), its argument, the new
+  `_receivedFDs`; or the exception of `parseMessage` / of the slice;
+* `deliverEffects` - the deliveries of ONE `dataReceived` call, in order, stopping at the first exception: the
+  failing frame has already been taken off the buffer and `_nextMsgLen` reset (protocol.py lines 139-144), the
+  frames that the framing model delivered after it in the same read were never looked at - they are still in
+  `_buffer`; the exception escapes `dataReceived` (effect `crash`, as for the IndexError of Framing.lean);
+* `recvRun` - the reads one after the other; after an escaped exception the reactor drops the connection: no
+  further read is delivered (the harness stops there too).
+The hooks are assumed to return (handlers that raise or re-enter: stream `reentrant-delivery`, implementation only).
+`Hook.ofClass` is the SPEC side of the dispatch (a method call is delivered to `methodCallReceived`, ...). -/
+
+/-- The four hooks of `BasicDBusProtocol`. -/
+inductive Hook where
+  | methodCallReceived | methodReturnReceived | errorReceived | signalReceived
+  deriving DecidableEq, Repr
+
+/-- `if mt == 1: … elif mt == 2: … elif mt == 3: … elif mt == 4: …` (nothing for another type). -/
+def hookOfType (mt : Nat) : Option Hook :=
+  if mt = 1 then some .methodCallReceived
+  else if mt = 2 then some .methodReturnReceived
+  else if mt = 3 then some .errorReceived
+  else if mt = 4 then some .signalReceived
+  else none
+
+/-- SPEC: which hook a message of a class is for. -/
+def Hook.ofClass : Msg.MsgClass → Hook
+  | .methodCall => .methodCallReceived
+  | .methodReturn => .methodReturnReceived
+  | .error => .errorReceived
+  | .signal => .signalReceived
+
+/-- Python `l[n:]` for an int `n` (negative: counted from the end; clamped). -/
+def sliceFrom (l : List PyVal) (n : Int) : List PyVal :=
+  if 0 ≤ n then l.drop n.toNat else l.drop (l.length - n.natAbs)
+
+/-- `if hasattr(m, 'unix_fds'): self._receivedFDs = self._receivedFDs[m.unix_fds:]` - the attribute is only set
+by `parseMessage` from header field 9 (no class default); a value that is not an integer makes the slice raise
+TypeError. -/
+def fdsAfter (fds : List PyVal) : PyVal → Except PyErr (List PyVal)
+  | .none => .ok fds
+  | .int _ n => .ok (sliceFrom fds n)
+  | .bool b => .ok (fds.drop (if b then 1 else 0))
+  | _ => .error .type
+
+/-- One call of `rawDBusMessageReceived(raw)` with `self._receivedFDs = fds`: the hook that is called (none for
+an unknown type), the message it is handed, and the new `_receivedFDs`; or the exception that escapes. -/
+def handleFrame {β : Type} (T : Msg.Tables) (C : Msg.BodyCodec β) (fds : List PyVal) (raw : Bytes) :
+    Except PyErr (Option Hook × Msg.Msg β × List PyVal) :=
+  match Msg.parseMessage T C raw (some fds) with
+  | .error e => .error e
+  | .ok m =>
+    match fdsAfter fds (m.attrs .unixFds) with
+    | .error e => .error e
+    | .ok fds' => .ok (hookOfType (T.messageType m.cls), m, fds')
+
+/-- What the deliveries of one `dataReceived` call come to. -/
+structure Delivered (β : Type) where
+  /-- the effects that really happened (cut after the failing frame, then `crash`) -/
+  effs : List Effect
+  /-- per delivered frame: the hook and its argument, or the exception (only the last entry can be one) -/
+  calls : List (Except PyErr (Option Hook × Msg.Msg β))
+  /-- `_receivedFDs` afterwards -/
+  fds : List PyVal
+  /-- when an exception escaped: the failing frame and the frames the loop did not get to -/
+  aborted : Option (Bytes × List Bytes)
+
+/-- The deliveries of one `dataReceived` call over the effects the framing model computed for it. -/
+def deliverEffects {β : Type} (T : Msg.Tables) (C : Msg.BodyCodec β) : List PyVal → List Effect → Delivered β
+  | fds, [] => ⟨[], [], fds, none⟩
+  | fds, .msg raw :: t =>
+    match handleFrame T C fds raw with
+    | .error e => ⟨[.msg raw, .crash], [.error e], fds, some (raw, msgsOf t)⟩
+    | .ok (h, m, fds') =>
+      let r := deliverEffects T C fds' t
+      ⟨.msg raw :: r.effs, .ok (h, m) :: r.calls, r.fds, r.aborted⟩
+  | fds, e :: t =>
+    let r := deliverEffects T C fds t
+    ⟨e :: r.effs, r.calls, r.fds, r.aborted⟩
+
+/-- The receiver over a list of reads: framing (`step`), then the deliveries of that read; an exception that
+escapes `dataReceived` ends the connection.  -> final framing state (after an exception: the failing frame gone,
+everything behind it buffered, `_nextMsgLen == 0`, `_endian` that of the failing frame), the effects, the hook
+calls (or the exception, last), the final `_receivedFDs`. -/
+def recvRun {α β : Type} (T : Msg.Tables) (C : Msg.BodyCodec β) (A : Auth α) :
+    St α → List PyVal → List Bytes →
+      St α × List Effect × List (Except PyErr (Option Hook × Msg.Msg β)) × List PyVal
+  | s, fds, [] => (s, [], [], fds)
+  | s, fds, d :: ds =>
+    let r := step A s d
+    let dl : Delivered β := deliverEffects T C fds r.2
+    match dl.aborted with
+    | some (bad, later) =>
+      ({ r.1 with buffer := later.flatten ++ r.1.buffer, nextMsgLen := 0,
+                  bigEndian := bad.take 1 != [Txdbus.Gen.ProtoConst.littleMarker] },
+       dl.effs, dl.calls, dl.fds)
+    | none =>
+      let q := recvRun T C A r.1 dl.fds ds
+      (q.1, dl.effs ++ q.2.1, dl.calls ++ q.2.2.1, q.2.2.2)
+
+/-! ### SPEC side, from the CONSTRUCTOR ARGUMENTS (review 3, F2)
+
+`Sent.expected` is the view of the object the code model of the constructor RETURNED.  `Call.expectedView`
+states what the receiver must see from what the sender PASSED: the message type of the constructor that was
+called (the type codes of the DBus specification), the requested flags, every argument under its own header
+attribute, the serial the counter stood at, and the decoded body.  `unix_fds` is not an argument (`_marshal`
+sets it to the number of descriptors collected): it is taken from the constructed object. -/
+
+/-- METHOD_CALL = 1, METHOD_RETURN = 2, ERROR = 3, SIGNAL = 4 (DBus specification, "Message Format"). -/
+def callType {β : Type} : Msg.Call β → Nat
+  | .methodCall _ => 1
+  | .methodReturn _ => 2
+  | .error _ => 3
+  | .signal _ => 4
+
+/-- The hook a constructor call is for. -/
+def callHook {β : Type} : Msg.Call β → Hook
+  | .methodCall _ => .methodCallReceived
+  | .methodReturn _ => .methodReturnReceived
+  | .error _ => .errorReceived
+  | .signal _ => .signalReceived
+
+/-- `expectReply`, `autoStart` as requested (only `MethodCallMessage` has the arguments; True otherwise). -/
+def callFlags {β : Type} : Msg.Call β → Bool × Bool
+  | .methodCall a => (a.expectReply, a.autoStart)
+  | _ => (true, true)
+
+/-- Every argument under its own header attribute (None when not passed / not an argument of that class). -/
+def callAttr {β : Type} : Msg.Call β → Msg.Attr → PyVal
+  | .methodCall a, .path => Msg.strAttr a.path
+  | .methodCall a, .member => Msg.strAttr a.member
+  | .methodCall a, .interface => Msg.strAttr a.interface
+  | .methodCall a, .destination => Msg.strAttr a.destination
+  | .methodCall a, .signature => Msg.strAttr a.signature
+  | .methodReturn a, .replySerial => .int .plain a.replySerial
+  | .methodReturn a, .destination => Msg.strAttr a.destination
+  | .methodReturn a, .signature => Msg.strAttr a.signature
+  | .error a, .errorName => Msg.strAttr a.errorName
+  | .error a, .replySerial => .int .plain a.replySerial
+  | .error a, .destination => Msg.strAttr a.destination
+  | .error a, .signature => Msg.strAttr a.signature
+  | .error a, .sender => Msg.strAttr a.sender
+  | .signal a, .path => Msg.strAttr a.path
+  | .signal a, .member => Msg.strAttr a.member
+  | .signal a, .interface => Msg.strAttr a.interface
+  | .signal a, .destination => Msg.strAttr a.destination
+  | .signal a, .signature => Msg.strAttr a.signature
+  | _, _ => .none
+
+/-- One constructor call as the sender made it: the value of `DBusMessage._nextSerial` at that moment, the
+call, and what came of it (`sent.msg`) together with the receiver's side (`sent.fds`, `sent.decoded`). -/
+structure SentCall (β : Type) where
+  counter : Nat
+  call : Msg.Call β
+  sent : Sent β
+
+/-- What the receiver must see, stated from the arguments. -/
+def SentCall.expectedView {β : Type} (x : SentCall β) : Msg.View β :=
+  { messageType := callType x.call, serial := x.counter,
+    expectReply := (callFlags x.call).1, autoStart := (callFlags x.call).2,
+    attrs := fun a => if a = .unixFds then Msg.plain (x.sent.msg.attrs .unixFds) else Msg.plain (callAttr x.call a),
+    body := match callAttr x.call .signature with
+            | .str _ (_ :: _) => some x.sent.decoded
+            | _ => none }
+
+/-- The complete observation of one hook call that the composed theorems conclude about: which hook, the
+content (`Msg.View`), the remaining flag bits, and the three raw parts. -/
+structure Handed (β : Type) where
+  hook : Option Hook
+  view : Msg.View β
+  otherFlags : Nat
+  rawHeader : Bytes
+  rawPadding : Bytes
+  rawBody : Bytes
+
+def handedOf {β : Type} (T : Msg.Tables) (p : Option Hook × Msg.Msg β) : Handed β :=
+  ⟨p.1, p.2.view T, p.2.otherFlags, p.2.rawHeader, p.2.rawPadding, p.2.rawBody⟩
+
+/-- What the hook must be handed for a sent message: the hook of its class, the expected content, no other flag
+bits, the raw parts of the constructed message. -/
+def Sent.handed {β : Type} (T : Msg.Tables) (x : Sent β) : Handed β :=
+  ⟨some (Hook.ofClass x.msg.cls), x.expected T, 0, x.msg.rawHeader, x.msg.rawPadding, x.msg.rawBody⟩
+
 end Txdbus.Proto
